@@ -500,9 +500,12 @@ class DataFrameSchemaBackend(PolarsSchemaBackend):
             else:
                 for col_schema in schema.columns.values():
                     if (
-                        not col_schema.required
+                        not col_schema.regex
                         and col_schema.name not in lf_columns
                     ):
+                        # a column that is not in the dataframe cannot be
+                        # coerced: a required one is reported by
+                        # check_column_presence
                         continue
 
                     if schema.coerce or col_schema.coerce:
